@@ -1,5 +1,6 @@
 import FtdcVerif.Lemmas.Reader
 import FtdcVerif.Model.Collector
+import FtdcVerif.Lemmas.FileE2E
 /-!
 # C11 — metadata travels with the chunks it describes
 
@@ -149,5 +150,26 @@ theorem metadata_survives (c : Better) (d : BDoc) :
     repeat' split
     all_goals rfl
   · rfl
+
+/-! ### write side and read side together, at the byte level -/
+
+/-- **in the file a collector writes, every chunk the reader delivers carries the metadata document that precedes it
+most closely** (as the reader stores it: the whole type-0 document), together with its own reference document and
+samples; no error is reported.  `outs` is any list of output documents - metadata documents and decodable chunks in
+any order, so a replaced metadata document describes exactly the chunks between it and its replacement. -/
+theorem file_metadata_travels (deflate : Bytes → Bytes) (inflate : Inflate) (hz : FileE2E.ZlibOK deflate inflate)
+    (now : I64) (outs : List OutDoc) (hok : ∀ o ∈ outs, FileE2E.OutOK deflate now o) :
+    (readAll inflate (FileE2E.fileBytes deflate now outs)).err = none ∧
+    (readAll inflate (FileE2E.fileBytes deflate now outs)).chunks.map (fun c => (c.ref, c.rows, c.metadata)) =
+      FileE2E.partsWithMeta deflate now none outs :=
+  FileE2E.file_roundtrip_meta deflate inflate hz now outs hok
+
+/-- the specification side, spelled out on a pattern: chunk, metadata A, chunk, metadata B, chunk - the three chunks
+carry none, A, B -/
+example (deflate : Bytes → Bytes) (now : I64) (c1 c2 c3 : BDoc × Row × List Row) (a b : BDoc) :
+    (FileE2E.partsWithMeta deflate now none
+      [.chunk .none c1.1 c1.2.1 c1.2.2, .metaDoc .none a, .chunk .none c2.1 c2.2.1 c2.2.2, .metaDoc .none b,
+       .chunk .none c3.1 c3.2.1 c3.2.2]).map (·.2.2) =
+    [none, some (FileE2E.wireDoc deflate now (.metaDoc .none a)), some (FileE2E.wireDoc deflate now (.metaDoc .none b))] := rfl
 
 end Ftdc.Props.C11
